@@ -256,3 +256,23 @@ theorem read_prefix (s : Sym ℚ) (table : List Row) (HI HF HF' : Nat) (xs ys : 
   exact key _ _ _ _ a b
 
 end Uwg.Weather
+
+namespace Uwg.Weather
+
+/-! ### non-vacuity: a two-row table read at the stub symbols -/
+
+def demoTable : List Row :=
+  [["LOCATION", "X"], ["1989", "1", "1", "1", "60", "f", "25.5", "20", "80", "100,900", "0", "0", "400", "0", "0", "0",
+    "0", "0", "0", "0", "180", "2.5"],
+   ["1989", "1", "1", "2", "60", "f", "-0.05", "", "103", "101325", "0", "0", "", "0", "0", "0", "0", "0", "0", "0",
+    "x", "10.0", "extra"]].map (·.map String.toList)
+
+example : (read stubQ demoTable 1 2).toOption.map (fun xs => xs.map (fun x => (x.temp, x.rhum, x.pres, x.umod))) =
+    some [(25.5 + 273.15, 80, 100900, .num 2.5), (-0.05 + 273.15, 103, 101325, .num 10)] := by decide +kernel
+
+example : (read stubQ demoTable 1 2).toOption.map (fun xs => xs.map (fun x => (x.tdp, x.infra, x.udir))) =
+    some [(.num 20, .num 400, .num 180), (.text, .text, .text)] := by decide +kernel
+
+example : read stubQ demoTable 1 1 = (read stubQ demoTable 1 2).map (·.take 1) := by decide +kernel
+
+end Uwg.Weather
